@@ -51,3 +51,24 @@ package index
 //@   before Add requires callres(GetPointNodeIdByUUID, 1, 1) == nil && arg1 == callres(GetPointNodeIdByUUID, 1, 0)
 //@   loop 1 invariant rangeindex >= -1 && rangeindex < len(ids) && rSet != nil
 //@   loop 1 invariant (q.String != nil && len(ids) == 1 && ids[0] == q.String.Value) || (q.String == nil && q.StringArray != nil && ids == q.StringArray.Value)
+
+// The query dispatcher as seen by its callers (trusted frame, body not verified here: it fans out
+// to the per-index searches, which are under contract on their own): apart from fresh results it
+// changes only the state of the cache transaction it works in, which it touches only through
+// Transaction.With - whose proved postcondition (locks released, every recorded cache write-locked,
+// names map to distinct caches) therefore holds when it returns.
+//@ func (indexManager).Search
+//@   trusted
+//@   allocates
+//@   requires im.cx != nil && im.cx.manager != nil && unheld(im.cx.mu) && unheld(im.cx.manager.mu)
+//@   requires forallv(k string, contains(im.cx.writtenCaches, k) ==> im.cx.writtenCaches[k] != nil && heldW(im.cx.writtenCaches[k].mu))
+//@   requires forallv(a string, forallv(b string, contains(im.cx.writtenCaches, a) && contains(im.cx.writtenCaches, b) && a != b ==> im.cx.writtenCaches[a] != im.cx.writtenCaches[b]))
+//@   ensures unheld(im.cx.mu) && unheld(im.cx.manager.mu) && im.cx.manager == old(im.cx.manager)
+//@   ensures forallv(k string, contains(im.cx.writtenCaches, k) ==> im.cx.writtenCaches[k] != nil && heldW(im.cx.writtenCaches[k].mu))
+//@   ensures forallv(a string, forallv(b string, contains(im.cx.writtenCaches, a) && contains(im.cx.writtenCaches, b) && a != b ==> im.cx.writtenCaches[a] != im.cx.writtenCaches[b]))
+//@   modifies im.cx.writtenCaches, im.cx.failed.v, im.cx.manager.sharedCaches, field(cache.sharedCacheElem.scrapped), field(cache.sharedCacheElem.lastAccessed), locks(cache.sharedCacheElem.mu), locks(cache.Transaction.mu), locks(cache.Manager.mu)
+
+//@ func NewIndexManager
+//@   property C06
+//@   pure
+//@   ensures result.bm == bm && result.cx == cx && result.cacheRoot == cacheRoot && result.indexSchema == indexSchema
